@@ -218,6 +218,11 @@ func runProperty(verifDir string, spec *PropSpec, tier string, seed int64, worke
 		pkg := prog.Pkgs[js.Pkg]
 		if pkg == nil || pkg.Func(js.Harness) == nil {
 			rep.Skipped = "harness not found"
+			if len(droppedUnits) > 0 {
+				rep.Skipped = "unit harness skipped: its file does not type-check against the current tree"
+			}
+			skippedUnits = append(skippedUnits, js.Harness)
+			fmt.Printf("INCOMPLETE property=%s bound=%q skipped: %s\n", spec.ID, js.Bound, rep.Skipped)
 			reports = append(reports, rep)
 			allExhausted = false
 			continue
